@@ -12,7 +12,9 @@ const LIMIT: usize = 3000;
 fn finish(xs: &mut Xstate, r: &Xresult) -> String {
     let d = xs.verif_dump();
     let out = xs.stdout().map(|s| s.clone()).unwrap_or_default();
-    format!("{} | {} | out={} | loc={:?}", vmcanon::outcome(r), vmcanon::core_dump(&d), crate::canon::hex(out.as_bytes()),
+    // (the instruction meter is part of what a drive mode may not change: what a source executes while it is built and
+    // while it runs is counted the same however it is driven — with a limit set, one mode must not get further than another)
+    format!("{} | {} | meter={} | out={} | loc={:?}", vmcanon::outcome(r), vmcanon::core_dump(&d), d.insn_meter, crate::canon::hex(out.as_bytes()),
         xs.last_err_location().map(|l| (l.line, l.col, l.token.to_string())))
 }
 
@@ -21,7 +23,15 @@ fn finish(xs: &mut Xstate, r: &Xresult) -> String {
 /// before a failure, an `exit` code that is not an integer
 fn drive_shape(r: &mut crate::rng::Rng) -> String {
     let (a, b, n) = (r.range(-5, 50), r.range(0, 9), r.range(1, 6));
-    match r.below(20) {
+    match r.below(26) {
+        // bit-string values whose buffers are shared with — or only with — what the reverse log keeps: where a value starts
+        // inside its buffer must not show, recording or not
+        20 => "[ 0x12 0x34 0x56 ] >bitstr open-bitstr 8 bits drop 16 bits close-bitstr bitstr-not open-bitstr offset println".to_string(),
+        21 => format!("|12 34 56 78| open-bitstr {} bits drop 8 bits close-bitstr |ff| bitstr-append open-bitstr offset println remain println", 4 * b),
+        22 => "[ 1 2 3 ] >bitstr open-bitstr u8 drop 8 bits close-bitstr dup bitstr-not swap bitstr-append open-bitstr offset remain + println 0 seek u8 println".to_string(),
+        23 => format!("|a5 5a c3| var bs bs open-bitstr {} bits drop 12 bits close-bitstr ! bs bs bitstr-not open-bitstr offset println bs println", b % 8),
+        24 => "|00 11 22 33| open-bitstr 8 bits drop 16 bits 8 bits close-bitstr swap bitstr-append bitstr-not open-bitstr offset println u8 println".to_string(),
+        25 => format!("#( {} {} + #) 1 2 3 4 5 drop drop println", a, b),
         // meta blocks: they run while the source is built, on a stack of their own — the same whether the source is
         // being evaluated or compiled, and whatever earlier programs left on the stack
         15 => format!("#( depth #) println {}", a),
